@@ -827,11 +827,15 @@ def disk_strategy():
     @st.composite
     def cases(draw):
         p0 = draw(payload())
-        style = draw(st.integers(0, 9))
+        style = draw(st.integers(0, 11))
         if style == 0:
             p1 = draw(payload())
         elif style == 1:
             p1 = copy.deepcopy(p0)
+        elif style >= 10:
+            # the smallest baselines: an empty state object (present, but falsy) or a one-key object
+            p0 = {} if style == 10 else {"version_etag": "0"}
+            p1 = draw(st.one_of(payload(), st.dictionaries(keys, leaf, max_size=3)))
         else:
             p1 = mutate_dict(draw, st, keys, leaf, value, {k: v for k, v in p0.items() if k != "gel"}, 0)
             p1["gel"] = mutate_gel(draw, p0["gel"])
